@@ -1,8 +1,10 @@
 """One C18 case in its own process:  python -m vp.c18child <case.json> <out.json>
 A budget thread turns "the submission burnt more CPU time than any legitimate run of these tiny
-workflows could" into a verdict with the spinning stack as witness (a logical budget measured in CPU
-seconds of this process, so machine load cannot trigger it); wall-clock is left to the parent's
-watchdog, whose firing is only inconclusive."""
+workflows could" into a verdict with the spinning stack as witness: the budget is *user* CPU time of this
+process measured after the imports (system time and imports are what a loaded machine inflates), and a
+violation additionally needs the main thread to sit inside the same pydra function on 10 consecutive stack
+samples - otherwise the result is inconclusive.  Wall-clock is left to the parent's watchdog, whose firing
+is only inconclusive."""
 import json
 import os
 import sys
@@ -19,21 +21,35 @@ def main():
     case = json.load(open(case_path))
     from vp.worker import WCtx
     from vp.props import c18
-    budget = float(os.environ.get("VP_C18_CPU_BUDGET", "25"))
+    import pydra.engine.submitter  # noqa: F401  (imports are not part of the budget)
+    import pydra.compose.workflow  # noqa: F401
+    budget = float(os.environ.get("VP_C18_CPU_BUDGET", "40"))
     main_id = threading.get_ident()
-    t0 = time.process_time()
+    t0 = os.times().user          # user time only: system time is inflated by a loaded machine, a python busy loop is not
+
+    def sample():
+        fr = sys._current_frames().get(main_id)
+        stack = traceback.extract_stack(fr)[-12:] if fr else []
+        return [f"{os.path.basename(fs.filename)}:{fs.name}" for fs in stack if "/pydra/" in fs.filename]
 
     def watch():
         while True:
             time.sleep(0.5)
-            used = time.process_time() - t0
+            used = os.times().user - t0
             if used > budget:
-                fr = sys._current_frames().get(main_id)
-                stack = traceback.format_stack(fr)[-8:] if fr else []
-                pyd = [ln.strip().splitlines()[0] for ln in stack if "/pydra/" in ln]
-                r = {"verdict": "violated", "case": case, "sig": env.sig_of(case), "nontrivial": True,
-                     "witness": {"why": "no termination within the CPU budget (busy loop)", "cpu_seconds": round(used, 1),
-                                 "spinning_in": pyd[-3:], "back_edges": case.get("spec", {}).get("back")},
+                # a busy loop keeps the main thread inside the same pydra function: sample it repeatedly
+                samples = []
+                for _ in range(10):
+                    samples.append(sample())
+                    time.sleep(0.2)
+                inner = [smp[-1] if smp else None for smp in samples]
+                common = set(samples[0]).intersection(*map(set, samples[1:])) if samples and all(samples) else set()
+                spinning = bool(common) and None not in inner
+                r = {"verdict": "violated" if spinning else "inconclusive", "case": case, "sig": env.sig_of(case), "nontrivial": True,
+                     "why": "CPU budget exhausted but the main thread was not found inside one pydra function on 10 samples",
+                     "witness": {"why": "no termination within the CPU budget (busy loop)", "user_cpu_seconds": round(used, 1),
+                                 "spinning_in": sorted(common), "innermost_samples": inner,
+                                 "back_edges": case.get("spec", {}).get("back")},
                      "mech": None, "obs": {"outcome": "cpu-budget-exhausted"}, "counters": {"cpu_budget_exhausted": 1},
                      "distinct": {"families": [case.get("family")]}}
                 with open(outp, "w") as f:
